@@ -3,3 +3,4 @@ import SedpackProofs.Filler
 import SedpackProofs.PoolThm
 import SedpackProofs.Pipe
 import SedpackProofs.TreeSession
+import SedpackProofs.TreeCheck
